@@ -63,6 +63,11 @@ func (P *curvePoint) Valid() bool {
 // Try to generate a point on this curve from a chosen x-coordinate,
 // with a random sign.
 func (P *curvePoint) genPoint(x *big.Int, rand cipher.Stream) bool {
+	// x must be a field element: an unreduced x would give a "point"
+	// whose encoding no decoder accepts
+	if x.Cmp(P.c.p.P) >= 0 {
+		return false
+	}
 	// Compute the corresponding Y coordinate, if any
 	y2 := new(big.Int).Mul(x, x)
 	y2.Mul(y2, x)
